@@ -128,7 +128,9 @@ BuilderCase(p) ==
   [mem |-> <<>>, al |-> 0,
    \* Builder::new() and Builder::default() are the same empty builder: odd-length sequences start from default()
    calls |-> <<[op |-> "b_new", default |-> (Len(p.seq) % 2 = 1)]>> \o [i \in 1..Len(p.seq) |-> BSet(p.seq[i][1], p.seq[i][2])]
-             \o <<[op |-> "b_build"], [op |-> "b_load"]>>,
+             \* ... and a byte-identical copy of the built structure loaded at an address that is 8 modulo 16
+             \o <<[op |-> "b_build"], [op |-> "b_load"], [op |-> "use_built", which |-> "info", res |-> 8], [op |-> "load"],
+                  [op |-> "tags", it |-> 0], [op |-> "count", it |-> 0]>>,
    desc |-> [area |-> "builder", seq |-> p.seq]]
 
 \* ---- HBuilder corpus ------------------------------------------------------------------------------------------------------
@@ -149,7 +151,9 @@ HBuilderParams ==
 HBuilderCase(p) ==
   [mem |-> <<>>, al |-> 0,
    calls |-> <<[op |-> "hb_new", arch |-> p.arch]>> \o [i \in 1..Len(p.seq) |-> HBSet(p.seq[i][1], p.seq[i][2])]
-             \o <<[op |-> "hb_build"], [op |-> "hb_load"]>>,
+             \* ... and a byte-identical copy of the built header loaded at an address that is 8 modulo 16
+             \o <<[op |-> "hb_build"], [op |-> "hb_load"], [op |-> "use_built", which |-> "header", res |-> 8], [op |-> "hload"],
+                  [op |-> "htags", it |-> 0], [op |-> "count", it |-> 0]>>,
    desc |-> [area |-> "hbuilder", arch |-> p.arch, seq |-> p.seq]]
 
 \* ---- the encoding table and the decoding table agree (read-back on the specification level) -------------------------------
